@@ -26,6 +26,7 @@ SEEDS = {
     'C01-begin-array-depth-off-by-one': ('C01', 'json_depth'), 'C12-gte-string-operator': ('C12', 'jsonpath_ops'),
     'C03-exp2-saved-exp1': ('C03', 'json_number'), 'C02-surrogate-pair2-saved-pair1': ('C02', 'json_string'), 'C07-ubjson-int16-short-read': ('C07', 'ubjson_read'), 'C09-is-integer-uint64-sign': ('C09', 'is_integer'),
     'C10-cbor-bigdec-depth-leak': ('C10', 'cbor_bigdec'), 'C08-cbor-bigdec-scale-assign': ('C08', 'cbor_bigdec'),
+    'C05-csv-subfields-ignored-empty-last': ('C05', 'csv_parse'),
     'C03-fals-cursor-mode': ('C03', 'json_literals'), 'C04-grisu-boundary-shift': ('C04', 'grisu'), 'C10-source-reader-claimed-length': ('C10', 'source_reader'),
 }
 only = sys.argv[1:]
